@@ -22,6 +22,7 @@ import (
 	transfertypes "github.com/cosmos/ibc-go/v7/modules/apps/transfer/types"
 	clienttypes "github.com/cosmos/ibc-go/v7/modules/core/02-client/types"
 	"github.com/ethereum/go-ethereum/common"
+	ethtypes "github.com/ethereum/go-ethereum/core/types"
 
 	evmtypes "github.com/haqq-network/haqq/x/evm/types"
 
@@ -387,6 +388,7 @@ func Worker(shard, n int, tier string) *engine.Result {
 			}
 		}
 	}
+	envelopes(r, res, shard, n)
 	for i, sc := range scs {
 		if i%n != shard {
 			continue
@@ -531,8 +533,14 @@ func Worker(shard, n int, tier string) *engine.Result {
 		} else {
 			toP, dataP = leafP.To, leafP.Data
 		}
+		// (alternately a legacy tx at 1 gwei and a dynamic-fee tx with tip 1 gwei under a cap of 3 gwei:
+		// the base fee is 0 here, so the effective price is 1 gwei in both)
 		price := big.NewInt(1000000000)
-		bzP, err := world.WrapEth(w.SignEth(w.Keys[f.S], world.EthSpec{Nonce: nonce, Gas: 10000000, To: &toP, Value: big.NewInt(sc.v0), GasPrice: price, Data: dataP}))
+		specP := world.EthSpec{Nonce: nonce, Gas: 10000000, To: &toP, Value: big.NewInt(sc.v0), GasPrice: price, Data: dataP}
+		if i%2 == 1 {
+			specP.Type, specP.Tip, specP.Cap = 2, price, big.NewInt(3000000000)
+		}
+		bzP, err := world.WrapEth(w.SignEth(w.Keys[f.S], specP))
 		if err != nil {
 			panic(err)
 		}
@@ -609,6 +617,111 @@ func Worker(shard, n int, tier string) *engine.Result {
 		}
 	}
 	return res
+}
+
+// envelopes: one Cosmos transaction carrying several Ethereum messages of the signer - a direct
+// precompile call and plain value transfers before / after it.  Supply must not change and the bank,
+// staking and distribution stores must equal the native replay (the message, then the transfers).
+// Only combinations free of the known findings in the direct topology are used.
+func envelopes(r *runner, res *engine.Result, shard, n int) {
+	w, f := r.f.W, r.f
+	type env struct {
+		method, amt, pre string
+	}
+	envs := []env{{"distribution.claimRewards", "-", "base"}, {"distribution.withdrawDelegatorRewards", "-", "base"}, {"distribution.claimRewards", "-", "wd-other"},
+		{"staking.undelegate", "mid", "base"}, {"staking.delegate", "mid", "no-rewards"}, {"staking.redelegate", "mid", "no-rewards"}, {"distribution.setWithdrawAddress", "-", "base"}}
+	shapes := []string{"call,transfer", "transfer,call", "transfer,call,transfer", "call,call"}
+	idx := 0
+	for _, e := range envs {
+		for _, shape := range shapes {
+			idx++
+			if idx%n != shard {
+				continue
+			}
+			sc := scenario{topo: "direct", method: e.method, named: "signer", amt: e.amt, pre: e.pre, dirty: "none"}
+			p := []string{fmt.Sprintf("envelope[%s] %s(signer,%s) pre=%s", shape, e.method, e.amt, e.pre)}
+			parts := strings.Split(shape, ",")
+			tEth := w.Eth[f.T]
+			run := func(native bool) (map[string]map[string]string, sdkmath.Int, sdkmath.Int, uint32) {
+				restore := w.Branch()
+				defer restore()
+				r.applyPre(sc.pre)
+				_, leaf, nat, _ := r.build(sc)
+				ctx := w.App.BaseApp.VerifDeliverCtx()
+				pre := w.App.BankKeeper.GetSupply(ctx, world.Denom).Amount
+				var code uint32
+				if native {
+					for _, part := range parts {
+						if part == "call" {
+							_, _ = nat()
+						} else if err := w.App.BankKeeper.SendCoins(w.Ctx(), w.Addrs[f.S], w.Addrs[f.T], sdk.NewCoins(sdk.NewInt64Coin(world.Denom, 5))); err != nil {
+							panic(err)
+						}
+					}
+				} else {
+					nonce := w.App.AccountKeeper.GetAccount(ctx, w.Addrs[f.S]).GetSequence()
+					var txs []*ethtypes.Transaction
+					for k, part := range parts {
+						spec := world.EthSpec{Nonce: nonce + uint64(k), Gas: 3000000, GasPrice: big.NewInt(0)}
+						if part == "call" {
+							to := leaf.To
+							spec.To, spec.Data = &to, leaf.Data
+						} else {
+							spec.To, spec.Value = &tEth, big.NewInt(5)
+						}
+						txs = append(txs, w.SignEth(w.Keys[f.S], spec))
+					}
+					bz, err := world.WrapEth(txs...)
+					if err != nil {
+						panic(err)
+					}
+					code = w.Deliver(bz).Code
+				}
+				out := map[string]map[string]string{}
+				for _, st := range []string{"bank", "staking", "distribution"} {
+					out[st] = engine.DumpStore(w.App.BaseApp.VerifDeliverCtx(), w, st)
+				}
+				return out, pre, w.App.BankKeeper.GetSupply(w.Ctx(), world.Denom).Amount, code
+			}
+			a, supplyPre, supplyPost, code := run(false)
+			c, _, _, _ := run(true)
+			res.Transitions += 2
+			res.Evaluations++
+			res.States[p[0]] = 0
+			sig := func(effect string) string {
+				return fmt.Sprintf("C02|method=%s|envelope=%s|pre=%s|effect=%s", e.method, strings.ReplaceAll(shape, ",", "+"), e.pre, effect)
+			}
+			detail := map[string]any{"tx_code": code, "supply_delta": supplyPost.Sub(supplyPre).String()}
+			if code != 0 {
+				res.Outcomes["envelope:tx-failed"]++
+				if !supplyPost.Equal(supplyPre) {
+					res.AddViolation(engine.Violation{Signature: sig("supply"), What: "a failed multi-message Ethereum transaction changed the total supply", Path: p, Detail: detail})
+				}
+				continue
+			}
+			res.Outcomes["envelope:ok"]++
+			res.Nontrivial[p[0]] = true
+			if !supplyPost.Equal(supplyPre) {
+				eff := "mint"
+				if supplyPost.LT(supplyPre) {
+					eff = "burn"
+				}
+				res.AddViolation(engine.Violation{Signature: sig(eff), What: "a multi-message Ethereum transaction changed the total supply of the native coin", Path: p, Detail: detail})
+				continue
+			}
+			for _, st := range []string{"bank", "staking", "distribution"} {
+				if d := engine.DiffStores(c[st], a[st]); len(d) > 0 {
+					if len(d) > 6 {
+						d = d[:6]
+					}
+					detail["native->evm:"+st] = d
+				}
+			}
+			if len(detail) > 2 {
+				res.AddViolation(engine.Violation{Signature: sig("misdirect"), What: "balances / stake after a multi-message Ethereum transaction differ from the native replay of its message and transfers", Path: p, Detail: detail})
+			}
+		}
+	}
 }
 
 func decode(data []byte) (failed bool, err error) {
